@@ -255,15 +255,22 @@ func (s *scriptConn) SetDeadline(time.Time) error      { return nil }
 func (s *scriptConn) SetReadDeadline(time.Time) error  { return nil }
 func (s *scriptConn) SetWriteDeadline(time.Time) error { return nil }
 
-// setConn injects c into the unexported field nbt.NBTTransport.conn.
+// setConn stores c in the unexported field of nbt.NBTTransport that has type net.Conn (fallback when the dial
+// shim is not mounted).
 func setConn(t *nbt.NBTTransport, c net.Conn) error {
-	f := reflect.ValueOf(t).Elem().FieldByName("conn")
-	if !f.IsValid() {
-		return errors.New("nbt.NBTTransport has no field conn")
+	v := reflect.ValueOf(t).Elem()
+	connType := reflect.TypeOf((*net.Conn)(nil)).Elem()
+	for i := 0; i < v.NumField(); i++ {
+		if f := v.Field(i); f.Type() == connType {
+			reflect.NewAt(f.Type(), unsafe.Pointer(f.UnsafeAddr())).Elem().Set(reflect.ValueOf(&c).Elem())
+			return nil
+		}
 	}
-	reflect.NewAt(f.Type(), unsafe.Pointer(f.UnsafeAddr())).Elem().Set(reflect.ValueOf(&c).Elem())
-	return nil
+	return errors.New("nbt.NBTTransport has no field of type net.Conn")
 }
+
+// regNotes: entry points the harness could not drive on this tree (reported as a cap, never as a verdict).
+var regNotes []string
 
 func regNetBIOS() {
 	// NBNS packets from the library's own encoder
@@ -299,7 +306,14 @@ func regNetBIOS() {
 		return cat([]byte{typ, byte(len(payload) >> 16 & 1), byte(len(payload) >> 8), byte(len(payload))}, payload)
 	}
 	frames := [][]byte{frame(0, []byte("\xffSMBhello")), frame(0, nil), frame(0x85, nil), cat(frame(0, []byte{1, 2, 3}), frame(0, []byte{4})), frame(0, make([]byte, 300))}
+	if err := attachConn(nbt.NewNBTTransport(), &scriptConn{}); err != nil {
+		regNotes = append(regNotes, "nbt.NBTTransport.Receive cannot be driven over a scripted connection on this tree ("+err.Error()+"): its inputs were not enumerated")
+		frames = nil
+	}
 	for _, seg := range []int{0, 1} {
+		if frames == nil {
+			break
+		}
 		seg := seg
 		name := "nbt.NBTTransport.Receive[whole-stream]"
 		if seg == 1 {
@@ -307,8 +321,8 @@ func regNetBIOS() {
 		}
 		bin(name, func(in []byte) error {
 			t := nbt.NewNBTTransport()
-			if err := setConn(t, &scriptConn{data: in, seg: seg}); err != nil {
-				panic(err)
+			if err := attachConn(t, &scriptConn{data: in, seg: seg}); err != nil {
+				return nil // probed at registration; cannot happen here
 			}
 			// a stream may carry several frames: read until the first error (EOF ends every script)
 			// (the outcome is "value" when at least one frame was delivered before the stream ended)
